@@ -1,5 +1,6 @@
 import HailVerif.Generated.BatchRoutes
 import HailVerif.Model.DriverUtil
+import HailVerif.Model.SessionCache
 open HailVerif HailVerif.DriverUtil HailVerif.Access
 
 def showOutcome : Outcome → String
@@ -15,6 +16,15 @@ def showClass : Class → String
 
 def showMethod : Method → String
   | .get => "GET" | .post => "POST" | .put => "PUT" | .patch => "PATCH" | .delete => "DELETE" | .head => "HEAD" | .options => "OPTIONS"
+
+/-- session schedule tokens: `r` request, `a<ms>` advance, `s0|s1|s2` auth service says active | inactive | revoked -/
+def sessOp (w : String) : Option SessionCache.Op :=
+  if w == "r" then some .request
+  else if w == "s0" then some (.setSvc .active)
+  else if w == "s1" then some (.setSvc .inactive)
+  else if w == "s2" then some (.setSvc .revoked)
+  else if w.startsWith "a" then (w.drop 1).toNat?.map .advance
+  else none
 
 def bit (s : String) : Option Bool := if s == "1" then some true else if s == "0" then some false else none
 
@@ -52,6 +62,10 @@ def handle (line : String) : String :=
   | ["list", a, b] =>
     match bit a, bit b with
     | some a, some b => if listed a b then "listed" else "hidden"
+    | _, _ => "bad-op"
+  | "sess" :: lt :: ws =>
+    match lt.toNat?, ws.mapM sessOp with
+    | some lt, some ops => joinWith "," ((SessionCache.run false lt SessionCache.init ops).2.map toString)
     | _, _ => "bad-op"
   | ["filtercol"] => Generated.BatchRoutes.userCanAccessColumn
   | _ => "bad-op"
